@@ -219,6 +219,14 @@ func setup() *env {
 	}
 	for g := 1; g <= NG; g++ {
 		writeGslb(filepath.Join(e.dir, fmt.Sprintf("g%d", g)), g, bks)
+		// failing gslb reloads: g = 1 gslb.data is not JSON, g = 2 cluster_table.data is missing
+		bad := filepath.Join(e.dir, fmt.Sprintf("gbad%d", g))
+		writeGslb(bad, 3-g, bks)
+		if g == 1 {
+			ioutil.WriteFile(filepath.Join(bad, "gslb.data"), []byte("{ \"Clusters\": {"), 0644)
+		} else {
+			os.Remove(filepath.Join(bad, "cluster_table.data"))
+		}
 	}
 	srv.Mod.OnCall = e.onCall
 	E = e
@@ -369,6 +377,10 @@ func legal(ops hv.L) bool {
 			}
 		case 7:
 			if len(op) != 1 {
+				return false
+			}
+		case 8:
+			if len(op) != 2 || !in(1, NG, a(1)) {
 				return false
 			}
 		case 5:
@@ -536,6 +548,12 @@ func impl(in hv.Val) hv.Val {
 				acts[rid] = nil
 			}
 			obs = append(obs, v)
+		case 8:
+			code := 0
+			if e.srv.Bfe.GslbDataConfReload(url.Values{"path": {filepath.Join(e.dir, fmt.Sprintf("gbad%d", a(1)))}}) != nil {
+				code = 1
+			}
+			obs = append(obs, hv.L{hv.I(code)})
 		case 7:
 			id := fmt.Sprintf("k%d.%d", caseNo, k)
 			if e.ka == nil {
@@ -599,8 +617,11 @@ func gen(r *hv.Rng, i int, tier string) (string, hv.Val) {
 			if len(held) > 0 {
 				reloadsWhileHeld++
 			}
-		case c < 36:
+		case c < 33:
 			ops = append(ops, hv.L{hv.I(2), hv.I(r.Range(1, NG))})
+		case c < 36:
+			ops = append(ops, hv.L{hv.I(8), hv.I(r.Range(1, NG))})
+			badReload = true
 		case c < 44:
 			ops = append(ops, hv.L{hv.I(7)})
 			keep++
